@@ -18,9 +18,9 @@ TIERS = {
     'C14': {'quick': (2500, 200, 90), 'thorough': (50000, 1700, 120)},
     'C15': {'quick': (2500, 200, 90), 'thorough': (50000, 1700, 120)},
     'C11': {'quick': (2000, 200, 90), 'thorough': (40000, 1700, 120)},
-    'C01': {'quick': (160, 230, 200), 'thorough': (2500, 1750, 600)},
-    'C02': {'quick': (160, 230, 200), 'thorough': (2500, 1750, 600)},
-    'C03': {'quick': (120, 230, 200), 'thorough': (1500, 1750, 600)},
+    'C01': {'quick': (160, 200, 75), 'thorough': (2500, 1750, 600)},
+    'C02': {'quick': (160, 200, 75), 'thorough': (2500, 1750, 600)},
+    'C03': {'quick': (140, 200, 75), 'thorough': (1500, 1750, 600)},
 }
 
 
@@ -52,13 +52,19 @@ def cmd_check(a) -> int:
     rc = 0
     lines = []
     new_sigs = []
+    seen_known: dict = {}
     for sig, cnt in sorted(vd['sigs'].items()):
         k = report.match_known(prop, sig, known)
         if k is not None:
-            lines.append(f'KNOWN-FINDING: property={prop} {k["what"]} '
-                         f'[{sig}] ({cnt} runs)')
+            e = seen_known.setdefault(k['signature'], [k, 0, []])
+            e[1] += cnt
+            e[2].append(sig)
         else:
             new_sigs.append(sig)
+    for k, cnt, sigs in seen_known.values():
+        lines.append(f'KNOWN-FINDING: property={prop} {k["what"]} '
+                     f'({cnt} runs; signatures: {"; ".join(sigs[:4])}'
+                     f'{" ..." if len(sigs) > 4 else ""})')
     if new_sigs and not a.no_minimise:
         from dst import shrink
     for sig in new_sigs:
